@@ -177,6 +177,23 @@ def install_proxy(rec, contend=None):
     sqlite3.connect = lambda *a, **k: Conn(*a, **k)
 
 
+def make_algo(scenario, p):
+    kind, n, g = scenario[0], scenario[1], scenario[2]
+    if kind == "nsga2":
+        from artap.algorithm_NSGAII import NSGAII
+        return NSGAII(p)
+    if kind == "epsmoea":
+        from artap.algorithm_genetic import EpsMOEA
+        return EpsMOEA(p)
+    if kind == "sweep":
+        from artap.algorithm_sweep import SweepAlgorithm
+        from artap.operators import LHSGenerator
+        gen = LHSGenerator(p.parameters)
+        gen.init(n * g)
+        return SweepAlgorithm(p, generator=gen)
+    os._exit(3)
+
+
 def child_main(db, log, crash_at, scenario, seed, scratch):
     """Runs in the forked child; never returns."""
     try:
@@ -185,7 +202,7 @@ def child_main(db, log, crash_at, scenario, seed, scratch):
         os.dup2(devnull, 1)
         os.dup2(devnull, 2)
         rec = Recorder(log, crash_at)
-        contend = {"every": 4, "hold": 6} if len(scenario) > 4 else None
+        contend = {"every": 4, "hold": 6} if "contend" in scenario else None
         install_proxy(rec, contend)
         random.seed(seed)
         import numpy as np
@@ -204,6 +221,11 @@ def child_main(db, log, crash_at, scenario, seed, scratch):
                 return objective(ind.vector)
 
         p = P()
+        late = "late-store" in scenario
+        algo = None
+        if late:
+            # the algorithm object exists before the store is attached (problem.data_store is assigned afterwards)
+            algo = make_algo(scenario, p)
         p.data_store = SqliteDataStore(p, database_name=db)
         rec.tick("STORE-CREATED")
         orig_sync, orig_all = p.data_store.sync_individual, p.data_store.sync_all
@@ -229,20 +251,18 @@ def child_main(db, log, crash_at, scenario, seed, scratch):
             return r
         p.data_store.sync_individual, p.data_store.sync_all = sync_individual, sync_all
         kind, n, g, workers = scenario[:4]
-        if kind == "nsga2":
-            from artap.algorithm_NSGAII import NSGAII
-            a = NSGAII(p)
-        elif kind == "epsmoea":
-            from artap.algorithm_genetic import EpsMOEA
-            a = EpsMOEA(p)
-        elif kind == "sweep":
-            from artap.algorithm_sweep import SweepAlgorithm
-            from artap.operators import LHSGenerator
-            gen = LHSGenerator(p.parameters)
-            gen.init(n * g)
-            a = SweepAlgorithm(p, generator=gen)
-        else:
-            os._exit(3)
+        a = algo if algo is not None else make_algo(scenario, p)
+        # a batch evaluation that has returned includes the synchronisation of its designs (Job.evaluate writes each
+        # design right after its costs are final): log which designs that covers
+        real_batch = a.evaluator.evaluate
+
+        def batch_evaluate(individuals, *aa, **kk):
+            r = real_batch(individuals, *aa, **kk)
+            done = [str(i.id) for i in individuals if i.state == i.State.EVALUATED]
+            if done:
+                rec.tick("batch-return %s" % "+".join(done))
+            return r
+        a.evaluator.evaluate = batch_evaluate
         if kind != "sweep":
             a.options["max_population_size"] = n
             a.options["max_population_number"] = g
@@ -329,19 +349,11 @@ def model_events(evs):
 
 
 def read_back(db):
-    """What a reader finds: raw rows and the read-mode view."""
+    """What a reader finds.  The read-mode view (`ProblemViewDataStore`) is the FIRST thing that touches the file after
+    the crash - exactly the property's situation (a hot rollback journal left by the killed writer is then still
+    there); the raw rows are read afterwards."""
     from artap.problem import ProblemViewDataStore
     res = {"readable": True, "rows": None, "view": None, "error": None}
-    try:
-        c = _real_connect(db)
-        raw = c.execute("SELECT id, individual FROM individuals").fetchall()
-        c.close()
-        res["rows"] = [(int(i), blob_hash(t)) for i, t in raw]
-        res["texts"] = {int(i): t for i, t in raw}
-    except Exception as e:   # noqa
-        res["readable"] = False
-        res["error"] = "raw read: %r" % (e,)
-        return res
     try:
         v = ProblemViewDataStore(database_name=db)
         res["view"] = [{"id": i.id, "vector": list(i.vector), "costs": list(i.costs), "signed": list(i.costs_signed),
@@ -353,6 +365,16 @@ def read_back(db):
     except Exception as e:   # noqa
         res["readable"] = False
         res["error"] = "ProblemViewDataStore: %r" % (e,)
+        return res
+    try:
+        c = _real_connect(db)
+        raw = c.execute("SELECT id, individual FROM individuals").fetchall()
+        c.close()
+        res["rows"] = [(int(i), blob_hash(t)) for i, t in raw]
+        res["texts"] = {int(i): t for i, t in raw}
+    except Exception as e:   # noqa
+        res["readable"] = False
+        res["error"] = "raw read: %r" % (e,)
     return res
 
 
@@ -374,6 +396,11 @@ def check_point(ctx, evs, rb, lines, pending):
     for e in evs:
         if e[0] == "sync-return" and int(e[1]) not in found:
             return "synchronisation of individual %s had returned before the crash but the store has no row for it" % e[1]
+        if e[0] == "batch-return" and len(e) > 1:
+            missing = [i for i in e[1].split("+") if i and int(i) not in found]
+            if missing:
+                return ("the evaluation of a batch had returned before the crash (each design is synchronised right after its "
+                        "costs are final) but designs %s have no row in the store" % ",".join(missing))
         if e[0] == "sync-all-return" and len(e) > 1:
             missing = [i for i in e[1].split("+") if i and int(i) not in found]
             if missing:
@@ -391,8 +418,8 @@ def check_point(ctx, evs, rb, lines, pending):
     return None
 
 
-SCEN_QUICK = [("nsga2", 3, 2, 1), ("nsga2", 3, 2, 2), ("epsmoea", 3, 2, 1), ("sweep", 3, 2, 2), ("nsga2", 3, 2, 1, "contend")]
-SCEN_THOROUGH = [("nsga2", 4, 3, 1), ("nsga2", 4, 3, 3), ("epsmoea", 3, 2, 2), ("epsmoea", 4, 3, 1), ("sweep", 3, 2, 1), ("sweep", 5, 2, 3), ("nsga2", 3, 2, 2, "contend"), ("epsmoea", 3, 2, 1, "contend")]
+SCEN_QUICK = [("nsga2", 3, 2, 1), ("nsga2", 3, 2, 2), ("epsmoea", 3, 2, 1), ("sweep", 3, 2, 2), ("nsga2", 3, 2, 1, "contend"), ("sweep", 3, 2, 1, "late-store")]
+SCEN_THOROUGH = [("nsga2", 4, 3, 1), ("nsga2", 4, 3, 3), ("epsmoea", 3, 2, 2), ("epsmoea", 4, 3, 1), ("sweep", 3, 2, 1), ("sweep", 5, 2, 3), ("nsga2", 3, 2, 2, "contend"), ("epsmoea", 3, 2, 1, "contend"), ("nsga2", 3, 2, 2, "late-store")]
 
 
 def run(ctx):
@@ -513,7 +540,7 @@ def run(ctx):
                     pid = spawn(db, db + ".log", -1, scen, seed, scratch)
                     running.append((pid, db, mode, arg, time.time(), time.time() + 0.02 + arg * ref_duration[0]))
             reap(True)
-            ctx.count("scenario_%s_%dx%d_w%d_events" % tuple(scen[:4]) + ("_contended" if len(scen) > 4 else ""), total)
+            ctx.count("scenario_%s_%dx%d_w%d_events" % tuple(scen[:4]) + ("_" + scen[4] if len(scen) > 4 else ""), total)
     finally:
         shutil.rmtree(scratch, ignore_errors=True)
     if ctx.failures:
